@@ -18,6 +18,7 @@
 -/
 import ASV.Model.Loc
 import ASV.Model.ProtDna
+import ASV.Model.Lookup
 import ASV.Generated.Orf
 namespace ASV.Orf
 open ASV
@@ -201,6 +202,28 @@ def orfAreas (L : Int) (cross : Bool) (parts : List (Int × Int × List Gene)) (
 def findAllOrfs (rec : Seq) (cross : Bool) (parts : List (Int × Int × List Gene)) (minLen pad : Int) :
     Option (List Loc) :=
   (orfAreas rec.length cross parts minLen pad).bind (scanAreas rec minLen)
+
+/-- what the gap search reads off a CDS feature: `cds.location.start`, `cds.location.end` -/
+def geneOf (g : Lookup.Gene) : Gene := ⟨g.loc.start, g.loc.end⟩
+
+/-- the gene lists `find_all_orfs` works with, obtained from the record itself (C08's model of
+    `Record.get_cds_features_within_location`): `genes` = `record.get_cds_features()` in record
+    order, `area` = `area.location` or `none`.  Returns `(area.crosses_origin(), parts)`. -/
+def recordParts (L : Int) (genes : List Lookup.Gene) (area : Option Loc) :
+    Bool × List (Int × Int × List Gene) :=
+  match area with
+  | none => (false, [(0, L, genes.map geneOf)])
+  | some a =>
+    if Lookup.crosses a then
+      (true, a.parts.map fun p => (p.lo, p.hi, (Lookup.within genes (.simple p) true).map geneOf))
+    else (false, [(a.start, a.end, (Lookup.within genes a true).map geneOf)])
+
+/-- `find_all_orfs(record, area, min_length, max_overlap)` on a record given by its sequence and
+    its CDS features -/
+def findAllOrfsRec (rec : Seq) (genes : List Lookup.Gene) (area : Option Loc) (minLen pad : Int) :
+    Option (List Loc) :=
+  let rp := recordParts rec.length genes area
+  findAllOrfs rec rp.1 rp.2 minLen pad
 
 /-! ### `create_feature_from_location`: the default label -/
 
